@@ -21,7 +21,9 @@ ARITH = {"add": operator.add, "sub": operator.sub, "mul": operator.mul, "truediv
 CMPS = {"lt": operator.lt, "le": operator.le, "gt": operator.gt, "ge": operator.ge, "eq": operator.eq, "ne": operator.ne}
 INPLACE = {"iadd": operator.iadd, "isub": operator.isub, "imul": operator.imul, "itruediv": operator.itruediv}
 RHS_KINDS = ["Vector", "Vector_other_nvec", "Vector_other_nvec_b", "Array", "int", "float", "ndarray", "Quantity"]
-UNIT_PAIRS = [("m", "m"), ("m", "cm"), ("cm", "km"), ("m", "s"), ("dimensionless", "dimensionless"), ("g", "M_sun")]
+UNIT_PAIRS = [("m", "m"), ("m", "cm"), ("cm", "km"), ("m", "s"), ("dimensionless", "dimensionless"), ("g", "M_sun"),
+              # pure numbers with a scale: a bare number next to them is a pure number (1 = 100 percent)
+              ("percent", "dimensionless"), ("cm/m", "percent")]
 
 
 def cases(thorough):
